@@ -61,7 +61,14 @@ func VerifC14_Lexical() {
 		"in": verifRefProp(inner),
 		"r":  verifRefProp(verifPlace(where, outerRef)),
 	})
-	outerB := NewObjectSchema("B", map[string]*PropertySchema{"y": verifRefProp(NewIntSchema(nil, nil, nil))})
+	// a third reference held by a non-root object of the outer scope
+	nonRootNS := nondetChoice("nonRootNS", 2)
+	nonRootID := nondetStringFrom("nonRootID", "A", "B")
+	nonRootRef := NewNamespacedRefSchema(nonRootID, verifNS(nonRootNS), nil)
+	outerB := NewObjectSchema("B", map[string]*PropertySchema{
+		"y": verifRefProp(NewIntSchema(nil, nil, nil)),
+		"g": verifRefProp(nonRootRef),
+	})
 	outer := NewScopeSchema(outerA, outerB)
 
 	extA := NewObjectSchema("A", map[string]*PropertySchema{"e": verifRefProp(NewBoolSchema())})
@@ -112,9 +119,24 @@ func VerifC14_Lexical() {
 			wantOuter = extB
 		}
 	}
+	var wantNonRoot Object
+	if nonRootNS == 0 {
+		if nonRootID == "A" {
+			wantNonRoot = outerA
+		} else {
+			wantNonRoot = outerB
+		}
+	} else if extApplied {
+		if nonRootID == "A" {
+			wantNonRoot = extA
+		} else {
+			wantNonRoot = extB
+		}
+	}
+	verifAssert("C14/lexical/non-root-reference-target", nonRootRef.referencedObjectCache == wantNonRoot)
 	verifAssert("C14/lexical/inner-reference-target", innerRef.referencedObjectCache == wantInner)
 	verifAssert("C14/lexical/outer-reference-target", outerRef.referencedObjectCache == wantOuter)
-	allLinked := wantInner != nil && wantOuter != nil
+	allLinked := wantInner != nil && wantOuter != nil && wantNonRoot != nil
 	verr := outer.ValidateReferences()
 	verifAssert("C14/lexical/validate-references-iff-all-linked", (verr == nil) == allLinked)
 	verifAssert("C14/lexical/object-ready", innerRef.ObjectReady() == (wantInner != nil) && outerRef.ObjectReady() == (wantOuter != nil))
